@@ -1317,6 +1317,14 @@ impl Value {
         let mut vis = DocumentVisitor::new(json.len(), smut);
         parser.parse_dom(&mut vis)?;
         let idx = parser.read.index();
+        // the value must end inside the input, not inside the padding
+        if idx > json.len() {
+            return Err(crate::error::Error::syntax(
+                crate::error::ErrorCode::EofWhileParsing,
+                json,
+                json.len(),
+            ));
+        }
 
         // NOTE: root node should is the first node
         *self = unsafe { vis.root.as_ref().clone() };
